@@ -983,4 +983,212 @@ theorem lexUri_uriE_of_class (v rest : Cps) (h : uriClass v = none) :
       simp [urlPrefix]
     · simp at h
 
+/-! ## `unicodesub` is idempotent -/
+
+theorem hexVal_le {d : Nat} (h : isHex d = true) : hexVal d ≤ 15 := by
+  simp only [isHex, Bool.or_eq_true, Bool.and_eq_true, decide_eq_true_eq] at h
+  unfold hexVal
+  split
+  · omega
+  · split <;> omega
+
+theorem hexFold_lt : ∀ (l : Cps) (a : Nat), (∀ x ∈ l, isHex x = true) →
+    l.foldl (fun a d => a * 16 + hexVal d) a < (a + 1) * 16 ^ l.length
+  | [], a, _ => by simp
+  | d :: l, a, h => by
+    have hd := hexVal_le (h d (by simp))
+    have ih := hexFold_lt l (a * 16 + hexVal d) (fun x hx => h x (by simp [hx]))
+    simp only [List.foldl_cons, List.length_cons, Nat.pow_succ]
+    calc _ < (a * 16 + hexVal d + 1) * 16 ^ l.length := ih
+      _ ≤ ((a + 1) * 16) * 16 ^ l.length := Nat.mul_le_mul_right _ (by omega)
+      _ = (a + 1) * (16 ^ l.length * 16) := by rw [Nat.mul_assoc, Nat.mul_comm 16]
+
+theorem hexNum_lt (l : Cps) (h : ∀ x ∈ l, isHex x = true) : hexNum l < 16 ^ l.length := by
+  have := hexFold_lt l 0 h
+  simpa [hexNum] using this
+
+theorem hexRun_take_length (n : Nat) (s : Cps) : (s.take (hexRun n s)).length = hexRun n s := by
+  induction n generalizing s with
+  | zero => simp [hexRun]
+  | succ n ih =>
+    cases s with
+    | nil => simp [hexRun]
+    | cons c t =>
+      simp only [hexRun]
+      split
+      · simp [ih t]
+      · simp
+
+/-- only six digits can denote something above U+10FFFF -/
+theorem hexRun_six_of_big (u : Cps) (h : ¬ hexNum (u.take (hexRun 6 u)) ≤ 0x10FFFF) : hexRun 6 u = 6 := by
+  have hle := hexRun_le 6 u
+  have hlt := hexNum_lt _ (hexRun_take_hex 6 u)
+  rw [hexRun_take_length] at hlt
+  by_cases h6 : hexRun 6 u = 6
+  · exact h6
+  · exfalso
+    have h5 : hexRun 6 u ≤ 5 := by omega
+    have : 16 ^ hexRun 6 u ≤ 16 ^ 5 := Nat.pow_le_pow_right (by decide) h5
+    have : (16:Nat) ^ 5 = 1048576 := by decide
+    omega
+
+theorem hexRun_full_append : ∀ (n : Nat) (a b : Cps), hexRun n a = n →
+    hexRun n (a ++ b) = n ∧ (a ++ b).take n = a.take n
+  | 0, _, _, _ => by simp [hexRun]
+  | n + 1, [], b, h => by simp [hexRun] at h
+  | n + 1, c :: a, b, h => by
+    simp only [hexRun] at h
+    split at h
+    · rename_i hc
+      have h' : hexRun n a = n := by omega
+      obtain ⟨e1, e2⟩ := hexRun_full_append n a b h'
+      simp [hexRun, hc, e1, e2]
+    · omega
+
+theorem escFree_cons_ne {c : Nat} (t : Cps) (hc : c ≠ 0x5C) : escFree (c :: t) = escFree t := by
+  rw [escFree.eq_def]; simp [hc]
+
+theorem escFree_plain_append : ∀ (p Y : Cps), (∀ x ∈ p, x ≠ 0x5C) → escFree (p ++ Y) = escFree Y
+  | [], _, _ => rfl
+  | c :: p, Y, h => by
+    rw [List.cons_append, escFree_cons_ne _ (h c (by simp)), escFree_plain_append p Y (fun x hx => h x (by simp [hx]))]
+
+theorem escFree_pair (t : Cps) : escFree (0x5C :: 0x5C :: t) = escFree t := by simp [escFree]
+
+theorem escFree_bs_other {d : Nat} (t : Cps) (h1 : d ≠ 0x5C) (h2 : isHex d = false) :
+    escFree (0x5C :: d :: t) = escFree t := by simp [escFree, h1, h2]
+
+theorem escFree_big {d : Nat} (t : Cps) (hd : isHex d = true)
+    (hbig : ¬ hexNum ((d :: t).take (hexRun 6 (d :: t))) ≤ 0x10FFFF) :
+    escFree (0x5C :: d :: t) = escFree t := by
+  simp [escFree, isHex_ne_bs hd, hd, hbig]
+
+/-- a text without decodable escapes is a fixpoint of `unicodesub` -/
+theorem usub_of_escFree (s : Cps) (h : escFree s = true) : usub s = s := by
+  fun_induction escFree s with
+  | case1 => rfl
+  | case2 => exact usub_bs_end
+  | case3 t' ih => rw [usub_pair, ih h]
+  | case4 d t' hne hh hnum => simp at h; omega
+  | case5 d t' hne hh hnum ih =>
+    have h' : escFree t' = true := by simpa [hnum] using h
+    rw [usub_big _ hh hnum, ih h']
+  | case6 d t' hne hh ih =>
+    have hh' : isHex d = false := by simpa using hh
+    rw [usub_bs_other _ hne hh', ih h]
+  | case7 c t hc ih => rw [usub_cons_ne _ hc, ih h]
+
+theorem hexRun_usub_tail {d : Nat} (t : Cps) (h6 : hexRun 6 (d :: t) = 6) :
+    hexRun 6 (d :: usub t) = 6 ∧ (d :: usub t).take 6 = (d :: t).take 6 := by
+  -- the first six characters are hex digits, so `unicodesub` copies them
+  have hp : ∀ x ∈ (d :: t).take 6, x ≠ 0x5C := by
+    intro x hx
+    have := hexRun_take_hex 6 (d :: t) x (by rw [h6]; exact hx)
+    exact isHex_ne_bs this
+  have e : usub (d :: t) = (d :: t).take 6 ++ usub ((d :: t).drop 6) := by
+    conv => lhs; rw [← List.take_append_drop 6 (d :: t)]
+    exact usub_plain_append _ _ hp
+  have hd : d ≠ 0x5C := hp d (by simp)
+  rw [usub_cons_ne _ hd] at e
+  have hr : hexRun 6 ((d :: t).take 6) = 6 := by
+    have := (hexRun_full_append 6 ((d :: t).take 6) ((d :: t).drop 6))
+    rw [List.take_append_drop] at this
+    -- hexRun of the prefix itself
+    clear this
+    have key : ∀ (n : Nat) (s : Cps), hexRun n s = n → hexRun n (s.take n) = n := by
+      intro n
+      induction n with
+      | zero => intro s _; simp [hexRun]
+      | succ n ih =>
+        intro s hs
+        cases s with
+        | nil => simp [hexRun] at hs
+        | cons c s =>
+          simp only [hexRun] at hs
+          split at hs
+          · rename_i hc
+            simp only [List.take_succ_cons, hexRun, hc, if_true]
+            have := ih s (by omega); omega
+          · omega
+    exact key 6 _ h6
+  obtain ⟨e1, e2⟩ := hexRun_full_append 6 ((d :: t).take 6) (usub ((d :: t).drop 6)) hr
+  rw [e]
+  refine ⟨e1, ?_⟩
+  rw [e2]; simp [List.take_take]
+
+/-- what `unicodesub` returns contains no decodable escape any more -/
+theorem escFree_usub : ∀ (n : Nat) (s : Cps), s.length ≤ n → escFree (usub s) = true
+  | _, [], _ => by simp [escFree]
+  | 0, c :: t, h => by simp at h
+  | n + 1, c :: t, h => by
+    have hl : t.length ≤ n := by simp at h; omega
+    by_cases hc : c = 0x5C
+    · subst hc
+      cases t with
+      | nil => rw [usub_bs_end]; simp [escFree]
+      | cons d t' =>
+        have hl' : t'.length ≤ n := by simp at hl; omega
+        by_cases hd : d = 0x5C
+        · subst hd
+          rw [usub_pair, escFree_pair]; exact escFree_usub n t' hl'
+        · by_cases hh : isHex d = true
+          · by_cases hbig : hexNum ((d :: t').take (hexRun 6 (d :: t'))) ≤ 0x10FFFF
+            · -- decoded
+              have hm : escMatch (0x5C :: d :: t') = some (1 + hexRun 6 (d :: t') + termLen ((d :: t').drop (hexRun 6 (d :: t'))),
+                  if hexNum ((d :: t').take (hexRun 6 (d :: t'))) = 0x5C then [0x5C, 0x5C]
+                  else [hexNum ((d :: t').take (hexRun 6 (d :: t')))]) := by
+                simp only [escMatch, hd, hh, if_false, if_true, hbig]
+              have e := reSub_cons_some hm
+              simp only [] at e
+              rw [usub, e, ← usub]
+              have ih := escFree_usub n ((d :: t').drop (1 + hexRun 6 (d :: t') +
+                termLen ((d :: t').drop (hexRun 6 (d :: t'))) - 1)) (by rw [List.length_drop]; exact Nat.le_trans (Nat.sub_le _ _) hl)
+              split
+              · simp only [List.cons_append, List.nil_append]; rw [escFree_pair]; exact ih
+              · rename_i h5
+                simp only [List.cons_append, List.nil_append]; rw [escFree_cons_ne _ h5]; exact ih
+            · -- left as written
+              rw [usub_big _ hh hbig]
+              have h6 := hexRun_six_of_big _ hbig
+              obtain ⟨e1, e2⟩ := hexRun_usub_tail t' h6
+              have hbig' : ¬ hexNum ((d :: usub t').take (hexRun 6 (d :: usub t'))) ≤ 0x10FFFF := by
+                rw [e1, e2, ← h6]; exact hbig
+              rw [escFree_big _ hh hbig']
+              exact escFree_usub n t' hl'
+          · have hh' : isHex d = false := by simpa using hh
+            rw [usub_bs_other _ hd hh', escFree_bs_other _ hd hh']
+            exact escFree_usub n t' hl'
+    · rw [usub_cons_ne _ hc, escFree_cons_ne _ hc]; exact escFree_usub n t hl
+
+/-- `unicodesub` is idempotent: a token value written back verbatim is read as itself -/
+theorem usub_usub (s : Cps) : usub (usub s) = usub s :=
+  usub_of_escFree _ (escFree_usub s.length s (Nat.le_refl _))
+
+/-! ## backslash-free text -/
+
+theorem scan_no_bs (m : Mode) : ∀ v : Cps, (∀ x ∈ v, x ≠ 0x5C) → scan m v = none
+  | [], _ => rfl
+  | c :: t, h => by
+    have hc := h c (by simp)
+    rw [scan.eq_def]
+    simp only [hc, if_false]
+    exact scan_no_bs m t (fun x hx => h x (by simp [hx]))
+
+theorem usub_no_bs (s : Cps) (h : ∀ x ∈ s, x ≠ 0x5C) : usub s = s := by
+  have := usub_plain_append s [] h
+  simpa using this
+
+theorem clean_no_bs (s : Cps) (h : ∀ x ∈ s, x ≠ 0x5C) : clean s = s := by
+  have := reSub_plain_append cleanMatch_needsBs s [] h
+  simpa [clean] using this
+
+theorem replace2_no_a {a b : Nat} {r : Cps} : ∀ s : Cps, (∀ x ∈ s, x ≠ a) → replace2 a b r s = s
+  | [], _ => rfl
+  | [x], _ => rfl
+  | x :: y :: t, h => by
+    have hx := h x (by simp)
+    rw [replace2]
+    simp only [hx, false_and, if_false]
+    rw [replace2_no_a (y :: t) (fun z hz => h z (by simp [hz]))]
+
 end CssVerif.StrCodec
